@@ -55,12 +55,14 @@ def has_forbidden_input(text):
     the navigation brackets, or text that is itself shaped like a tag or a character/entity reference (pass-through would reproduce it).
     The XML special characters themselves (< > & ' ") are welcome."""
     t = passed_through(text)
-    return any(is_private_use(c) for c in text) or _markup_shaped(t) or _markup_shaped(squeezed(text))
+    # (navigation speech such as WhereAmIAll speaks a node once per ancestor: the text can follow itself, '><l' ... '><l' contains '<l ... >')
+    return any(is_private_use(c) for c in text) or _markup_shaped(t + " ; " + t) or _markup_shaped(squeezed(text) * 2)
 
 
 def could_pass_through_markup(texts):
     """expression level: could the token texts, passed through in order with words and pauses in between, form a tag- or reference-shaped
     string?  ('<' directly followed by a name character in one token and a '>' in the same or a later one; the start of a reference)"""
+    texts = list(texts) * 2        # navigation speech can speak the same nodes twice (once per ancestor)
     return _markup_shaped(" ".join(passed_through(t) for t in texts)) or _markup_shaped(" ".join(squeezed(t) for t in texts))
 
 
